@@ -4,7 +4,7 @@ import PewDriver.C09
 open Lean
 namespace PewDriver.C10
 open PewDriver Pew Pew.Extent Pew.Srr
-open PewDriver.C09 (parseSrrCfg)
+open PewDriver.C09 (parseSrrCfg parseRec jRec jErr jCfg)
 
 def parseCfg (j : Json) : R Cfg := do
   let k ← getStr j "kind"
@@ -34,14 +34,22 @@ def handle (op : String) (req : Json) : R Json := do
     let rows ← getNat req "rows"
     let cols ← getNat req "cols"
     let data := grid rows cols
-    let rt := match Cfg.fromArray c.kind c.toArray with
-      | some c' => jObj [("pw", jRat c'.pixelWidth), ("ph", jRat c'.pixelHeight), ("extent", jExt (laserExtent c' data))]
-      | none => Json.null
+    let jc := fun (c' : Cfg) => jObj [("kind", jStr (match c'.kind with | .raster => "raster" | .spot => "spot")),
+      ("values", jList jRat (match c' with | .raster a b t => [a, b, t] | .spot x y => [x, y])),
+      ("pw", jRat c'.pixelWidth), ("ph", jRat c'.pixelHeight), ("extent", jExt (laserExtent c' data))]
+    let jr := fun (r : Except ArrErr Cfg) => match r with
+      | .ok c' => jc c'
+      | .error e => jErr e
+    let rt := jr (Cfg.fromRec c.kind c.toRec)
+    -- `from_array` of both classes on the REAL arrays the harness encoded (own class and the other classes)
+    let given ← getList parseRec req "arrays"
+    let fromReal := given.map (fun a => jObj [("raster", jr (Cfg.fromRec .raster a)), ("spot", jr (Cfg.fromRec .spot a)),
+      ("srr", match SrrConfig.fromRec a with | .ok sc => jCfg sc | .error e => jErr e)])
     let sp := c.specExtent rows cols
     pure (jObj [
       ("model", jObj [("pw", jRat c.pixelWidth), ("ph", jRat c.pixelHeight),
                       ("extent", jExt (laserExtent c data)), ("data_extent", jExt (c.dataExtent [rows, cols])),
-                      ("roundtrip", rt)]),
+                      ("array", jRec c.toRec), ("roundtrip", rt), ("from_arrays", Json.arr fromReal.toArray)]),
       ("spec", jObj [("extent", jExt sp),
                      ("pw", jRat (match c with | .raster _ v t => v * t | .spot sx _ => sx)),
                      ("ph", jRat (match c with | .raster s _ _ => s | .spot _ sy => sy))])])
@@ -66,8 +74,10 @@ def handle (op : String) (req : Json) : R Json := do
         ("spec", jArr2 (rectSpec data r0 r1 c0 c1) full)])
     | _, _ => throw "extent/rect need four entries"
   | "c10.srr" =>
+    -- the configuration is computed from the constructor / setter inputs (`cfg` + `ops`), the magnification is the
+    -- model's float64 value of `spotsize / (speed * scantime)`
     let c ← fld req "cfg" >>= parseSrrCfg
-    let m ← getRat req "mag"
+    let m := c.magnification
     let shapes ← getList (asList asNat) req "shapes"
     let layers : List (Arr2 Int) ← shapes.mapM (fun s => match s with
       | [r, k] => pure (grid r k)
@@ -77,6 +87,9 @@ def handle (op : String) (req : Json) : R Json := do
     let mexact := magInt m
     let modelRatio := match srrLaserExtent c m layers with
       | some e => jList jRat [(e.x1 - e.x0) / srrPixelWidth c m none, (e.y1 - e.y0) / srrPixelHeight c m none]
+      | none => Json.null
+    let modelExtent := match srrLaserExtent c m layers with
+      | some e => jExt e
       | none => Json.null
     let modelShape := match krisskross 0 c m layers with
       | some a => jList jNat [a.rows, a.cols]
@@ -88,7 +101,10 @@ def handle (op : String) (req : Json) : R Json := do
       | [x0, x1, y0, y1, px, py] => if px = 0 ∨ py = 0 then Json.null else jList jRat [(x1 - x0) / px, (y1 - y0) / py]
       | _ => Json.null
     pure (jObj [("model_ratio", modelRatio), ("model_shape", modelShape), ("spec_shape", specShape),
-                ("observed_ratio", obsRatio), ("spp", jNat p), ("warmup", jInt c.warmup),
+                ("model_extent", modelExtent),
+                ("model_px", jRat (srrPixelWidth c m none)), ("model_py", jRat (srrPixelHeight c m none)),
+                ("valid", jOpt jBool (validForData c m layers)),
+                ("observed_ratio", obsRatio), ("config", jCfg c), ("spp", jNat p), ("warmup", jInt c.warmup),
                 ("size", jNat c.size), ("offs", jList jNat c.offs)])
   | _ => throw s!"unknown op {op}"
 
